@@ -16,6 +16,7 @@ CONSTANTS
   WithFlush = TRUE
   BadKinds = {}
   EmitOn = FALSE
+  Bias = FALSE
 VIEW View
 INVARIANTS InstalledIsFold NoDangling NothingResolvableHeld NoFwdMeansNoHeld CountersExact MirrorIsRib AnswerOnce PendShape FailedLeavesNoTrace
 CHECK_DEADLOCK FALSE
